@@ -92,6 +92,18 @@ def replay_robust(chk, recs, variant, name):
     log("[%s] replay %s on %s: %d records, %d disagreements" % (chk.pid, name, variant, len(recs), len(bad)))
 
 
+def iter_ndjson(path):
+    """stream the lines TLC emitted (the thorough field machines write hundreds of megabytes)"""
+    if not os.path.exists(path): return
+    with open(path) as f:
+        for l in f:
+            l = l.strip()
+            if not l: continue
+            v = json.loads(l)
+            if isinstance(v, str): v = json.loads(v)
+            yield v
+
+
 def b32(x): return list(x.to_bytes(32, "big"))
 def le_int(d): return sum(v << (8 * i) for i, v in enumerate(d))
 
@@ -125,8 +137,9 @@ def field_tours(chk, lines, seen_edges):
         op, w, reg, ret, byts = e
         if w >= 0: return (b32(le_int(reg[0])) if reg[1] >= 0 else []), ret, reg[1], reg[2]
         return list(byts), ret, 0, 0
-    recs = []; nsteps = 0; nedges = 0
+    recs = []; nsteps = 0; nedges = 0; nlines = 0
     for l in lines:
+        nlines += 1
         ops = []; val = []; ret = []; mag = []; nrm = []
         def push(op, x):
             ops.append(op); val.append(x[0]); ret.append(x[1]); mag.append(x[2]); nrm.append(x[3])
@@ -135,7 +148,7 @@ def field_tours(chk, lines, seen_edges):
         rk = json.dumps(regs_of(l["s"]), separators=(",", ":")); fresh = 0
         for kind in ("mut", "prd"):
             for e in l[kind]:
-                ek = rk + json.dumps(e[0], separators=(",", ":"))
+                ek = hash(rk + json.dumps(e[0], separators=(",", ":")))
                 if ek in seen_edges: continue      # the same operation on the same register contents was already scheduled
                 seen_edges.add(ek); fresh += 1
                 push(e[0], step_exp(e))
@@ -147,7 +160,7 @@ def field_tours(chk, lines, seen_edges):
         if not fresh: continue
         nedges += fresh; nsteps += len(ops)
         recs.append({"e": "KFeSeq", "in": {"init": l["root"], "ops": ops}, "out": {"val": val, "ret": ret, "mag": mag, "nrm": nrm, "icb": 0}})
-    return recs, len(lines), nedges, nsteps
+    return recs, nlines, nedges, nsteps
 
 
 # part 5: SHA stream machine -> transition tour
@@ -407,30 +420,36 @@ def run(chk):
     rng = random.Random(chk.seed)
     vlib.setup_classes(); vlib.stage_specs(os.path.join(chk.out, "stage"))
     fpath, spath = chk.out + "/field.ndjson", chk.out + "/sha.ndjson"
-    fcfgs = ["C05_field.cfg", "C05_field_mag.cfg"] if quick else ["C05_field_thorough.cfg", "C05_field_sym.cfg", "C05_field_mag_thorough.cfg"]
+    fcfgs = ["C05_field.cfg", "C05_field_mag.cfg"] if quick else ["C05_field_thorough.cfg", "C05_field_sym.cfg", "C05_field_mag_thorough.cfg", "C05_field_deep5.cfg"]
     with cf.ThreadPoolExecutor(max_workers=6) as ex:
         jb = ex.submit(chk.build, variants)
         jf = [ex.submit(chk.model, "C05_Field.tla", c, env={"GEN_OUT": "%s.%d" % (fpath, i)}, timeout=6000, workers=6, heap="4g") for i, c in enumerate(fcfgs)]
         js = ex.submit(chk.model, "C05_Sha.tla", "C05_sha.cfg" if quick else "C05_sha_thorough.cfg", env={"GEN_OUT": spath}, timeout=3000, workers=4, heap="3g")
         jg = ex.submit(chk.generate, MODULE, "C05_gen.cfg", "gen", timeout=6000, workers=8 if quick else 12, heap="6g")
         jb.result(); [j.result() for j in jf]; js.result(); gen = jg.result()
-    # ---- part 1: field transition tour ----
-    ftours = []; fstat = []; seen_edges = set()
-    for i, c in enumerate(fcfgs):
-        lines = vlib.read_ndjson("%s.%d" % (fpath, i))
-        if not lines: raise Infra("field machine %s emitted nothing" % c)
-        recs, nst, ned, nsteps = field_tours(chk, lines, seen_edges)
-        del lines
-        log("[C05] field machine %s: %d states with outgoing transitions, %d labelled transitions -> %d replay sequences, %d steps" % (c, nst, ned, len(recs), nsteps))
-        ftours += recs; fstat.append({"cfg": c, "states": nst, "transitions": ned, "steps": nsteps})
     # ---- part 5: SHA stream transition tour ----
     stours, sst, str_ = sha_tours(chk, vlib.read_ndjson(spath), rng, 100 if quick else 1000)
     log("[C05] sha stream machine: %d states, %d transitions -> %d replay sequences" % (sst, str_, len(stours)))
     chk.exhaustive = False
     for v in variants:
-        replay_robust(chk, ftours if v in VERIFY_VARIANTS else strip_verify(ftours), v, "field API transition tour")
         replay_robust(chk, stours, v, "SHA-256 write-sequence tour")
         replay_robust(chk, gen, v, "scalar / group law / ecmult / hash boundary records")
+    # ---- part 1: field transition tours (one machine at a time: the thorough ones are large) ----
+    fstat = []; seen_edges = set()
+    for i, c in enumerate(fcfgs):
+        recs, nst, ned, nsteps = field_tours(chk, iter_ndjson("%s.%d" % (fpath, i)), seen_edges)
+        if not recs: raise Infra("field machine %s emitted nothing" % c)
+        # the depth-5 tour (1.2 million transitions) is replayed on one build per field layout and on the VERIFY build only
+        on = [v for v in variants if v in ("std", "verify", "i64v")] if c == "C05_field_deep5.cfg" else variants
+        log("[C05] field machine %s: %d states with outgoing transitions, %d labelled transitions -> %d replay sequences, %d steps, replayed on %s" % (c, nst, ned, len(recs), nsteps, on))
+        fstat.append({"cfg": c, "states": nst, "transitions": ned, "steps": nsteps, "replayed_on": on})
+        plain = None
+        for v in on:
+            if v in VERIFY_VARIANTS: replay_robust(chk, recs, v, "field API transition tour (%s)" % c)
+            else:
+                if plain is None: plain = strip_verify(recs)
+                replay_robust(chk, plain, v, "field API transition tour (%s)" % c)
+        del recs, plain
     # ---- T direction ----
     nfe, nsc, ngl, nem, nh = (120, 500, 250, 90, 60) if quick else (1500, 6000, 3000, 900, 600)
     stage1 = [{"e": "KEcmult", "in": {"fn": "gen", "a": b32(edge(rng, SC_EDGE))}} for _ in range(24)]
